@@ -23,6 +23,8 @@ import (
 	"sort"
 	"strings"
 	"sync"
+	"sync/atomic"
+	"time"
 
 	"github.com/polynetwork/poly/core/store/overlaydb"
 	"github.com/syndtr/goleveldb/leveldb/iterator"
@@ -405,13 +407,64 @@ func violate(what string, path []string, got, want string) {
 	r.Violation("memdb:"+what+":mismatch", map[string]any{"ops": path, "got": got, "want": want})
 }
 
-func guard(what string, path []string, f func()) bool {
+// guard runs real-code calls: panics become violations, and the calls are registered with a watchdog because a
+// corrupted skip list can loop forever (no deadline can pre-empt that).
+var (
+	inflight sync.Map
+	inflightID, progress atomic.Int64
+)
+
+func opNames(path any) []string {
+	switch p := path.(type) {
+	case []string:
+		return p
+	case []op:
+		out := make([]string, len(p))
+		for i, o := range p {
+			out[i] = o.String()
+		}
+		return out
+	}
+	return nil
+}
+
+func guard(what string, path any, f func()) bool {
+	id := inflightID.Add(1)
+	inflight.Store(id, [2]any{what, path})
+	defer func() { inflight.Delete(id); progress.Add(1) }()
 	if rec, p := ev.Guard(f); p {
 		r.Class("panic")
-		r.Violation("memdb:"+what+":panic", map[string]any{"ops": path, "panic": fmt.Sprint(rec)})
+		r.Violation("memdb:"+what+":panic", map[string]any{"ops": opNames(path), "panic": fmt.Sprint(rec)})
 		return false
 	}
 	return true
+}
+
+func watchdog() {
+	go func() {
+		last, stall := int64(-1), 0
+		for {
+			time.Sleep(2 * time.Second)
+			busy := false
+			inflight.Range(func(_, _ any) bool { busy = true; return false })
+			if p := progress.Load(); p != last || !busy {
+				last, stall = p, 0
+				continue
+			}
+			if stall++; stall < 10 {
+				continue
+			}
+			var stuck []any
+			inflight.Range(func(_, v any) bool {
+				w := v.([2]any)
+				stuck = append(stuck, map[string]any{"op": w[0], "ops": opNames(w[1])})
+				return len(stuck) < 4
+			})
+			r.Violation("memdb:hang", map[string]any{"no_progress_for_s": 20, "calls_in_flight": stuck})
+			r.Finish(map[string]any{"rule": "aborted by watchdog: a MemDB call did not return", "states": 0, "transitions": 0,
+				"traces_validated_against_impl": progress.Load(), "exhaustive": false})
+		}
+	}()
 }
 
 func classify(o op, m *model, before *model, obs string) {
@@ -452,6 +505,7 @@ func classify(o op, m *model, before *model, obs string) {
 
 func main() {
 	r = ev.Start("C09", "model_checking")
+	watchdog()
 	keys := []string{"", "a", "a\x00", "ab", "b"}
 	if r.Thorough() {
 		keys = append(keys, "aa")
@@ -570,7 +624,7 @@ func main() {
 		}
 		rd := newReal()
 		var gb, gs string
-		if guard("history", nil, func() {
+		if guard("history", path, func() {
 			for _, o := range path {
 				rd.do(o)
 			}
@@ -665,7 +719,7 @@ func main() {
 				for i, o := range path {
 					names[i] = o.String()
 				}
-				if !guard("wide", names, func() { gb, gs = rd.battery(wprobe), rd.scans(wprobe) }) {
+				if !guard("wide", path, func() { gb, gs = rd.battery(wprobe), rd.scans(wprobe) }) {
 					return
 				}
 				if wb := m.battery(wprobe); gb != wb {
@@ -680,7 +734,7 @@ func main() {
 			apply := func(o op) {
 				path = append(path, o)
 				m.do(o)
-				guard("wide", nil, func() { rd.do(o) })
+				guard("wide", path, func() { rd.do(o) })
 			}
 			for i := 0; i < n; i++ { // n is prime: i*stride+off visits every key once
 				apply(op{kind: "put", key: wide[(i*stride+off)%n], val: []string{"x", "yy", ""}[i%3]})
